@@ -58,8 +58,10 @@ def sortable_proxy(
 
     for idx in numpoly.glexsort(poly.exponents.T, graded=graded, reverse=reverse):
         indices = numpy.all(largest == poly.exponents[idx], axis=-1)
-        values = numpy.argsort(coefficients[idx][indices])
-        proxy[indices] = numpy.argsort(values) + numpy.max(proxy) + 1
+        values = numpy.argsort(coefficients[idx][indices], kind="stable")
+        proxy[indices] = numpy.argsort(values, kind="stable") + numpy.max(proxy) + 1
 
-    proxy = numpy.argsort(numpy.argsort(proxy.ravel())).reshape(proxy.shape)
+    proxy = numpy.argsort(
+        numpy.argsort(proxy.ravel(), kind="stable"), kind="stable"
+    ).reshape(proxy.shape)
     return proxy
